@@ -3,7 +3,7 @@ C12 driver: parses the case lines that harness/c12/c12.c executes against the re
 (`model` mode), or parses an implementation trace into events and runs the specification oracle (`judge` mode).
 
 Case lines:   script u<k> =<text> <op>;<op>...   |  conn  |  send u<k> <data>  |  close u<k>  |  cycle  |  run
-ops:          kick,u<k> | drop,u<k> | ecmd,u<k>,<text> | gc | it | itn | err
+ops:          kick,u<k> | drop,u<k> | ecmd,u<k>,<text> | gc | it | itn | err | exec
 Texts in traces are `=` followed by [a-z0-9] literally and %xx for every other byte.
 -/
 import NV.Common.Proto
@@ -68,6 +68,7 @@ def render : Ev → String
   | .endc n m l => l.foldl (fun acc (i, u, f) => acc ++ s!" {i}:u{u}:{f}") s!"end {n} max={m}"
   | .crash w => s!"crash {w}"
   | .err u => s!"throw u{u}"
+  | .exec u r => s!"exec u{u} {b01 r}"
   | .abort n => s!"abort {n}"
   | .other l => l
 
@@ -99,6 +100,7 @@ def parseEv (line : String) : Ev :=
     | "end" :: n :: m :: l =>
       if m.startsWith "max=" then do some (.endc (← n.toNat?) (← (m.drop 4).toString.toNat?) (← parseLayout l)) else none
     | ["throw", u] => do some (.err (← parseUid u))
+    | ["exec", u, r] => do some (.exec (← parseUid u) (← parse01 r))
     | ["abort", n] => do some (.abort (← n.toNat?))
     | "crash" :: w => some (.crash (" ".intercalate w))
     | _ => none
@@ -113,6 +115,7 @@ def parseOp (s : String) : Option Op :=
   | ["it"] => some .it
   | ["itn"] => some .it      -- input_to with I_NOECHO: the echo flag does not touch scheduling
   | ["err"] => some .err
+  | ["exec"] => some .exec
   | _ => none
 
 structure Parsed where
